@@ -11,17 +11,19 @@ META = {
             "other agreement's / native / recycled / new / reserved-range, attribute variants, refresh-active-stale, retention modes). "
             "Histories of REAL scim_sync_apply calls by two agreements on a real IdmServer, interleaved with yield-authority changes and "
             "real user modifies of synchronised entries, are recorded with the population after every step; TLC judges every step with "
-            "L1 and requires L2 to predict result, creations and deletions. The model's counterexample (an id from the reserved system "
-            "range that does not exist yet) is replayed first in every run.",
+            "L1 and requires L2 to predict result, creations and deletions. The witness of the repaired finding (a request whose id "
+            "lies in the reserved system range and does not exist yet) is replayed first in every run as a regression.",
     "note": "exhaustive within 7 entries x 64 id subsets x 3 attribute variants x 3 states x 7 retention requests (model); real histories "
             "are seeded random (8 x 25 steps quick, 60 x 40 thorough). Server-maintained attributes (memberof, directmemberof, "
             "last_modified_cid) and the agreement's own record (cookie) are exempt from 'unchanged'; class, sync_class, sync_external_id, "
             "spn are bookkeeping on the agreement's own entries. The synchronisable attribute sets are read from the schema of the "
-            "server under test. Known finding C50-sync-creates-reserved-uuid (fix candidate notes/fix-C50.patch).",
+            "server under test. Finding C50-sync-creates-reserved-uuid (reproduced on the real code) is fixed by repository commit "
+            "bd2dcf7; L2 transcribes the repaired phase 2; regression replay notes/replay-C50-reserved-uuid.ndjson.",
     "design_ref": "DESIGN.md section 6, C50 and section 8",
     "technique": "TLA+ model of scim_sync_apply (KSync) model-checked by TLC; trace validation of real sync / user-modify histories",
 }
-ARMS = {"refresh-cleanup", "refused-foreign-entry", "refused-out-of-scope-delete", "refused-yielded-attribute", "sync-ok-creates", "sync-ok-deletes"}
+ARMS = {"refresh-cleanup", "refused-foreign-entry", "refused-out-of-scope-delete", "refused-reserved-range-id", "refused-yielded-attribute",
+        "sync-ok-creates", "sync-ok-deletes"}
 
 
 def run(tier, replay):
@@ -33,7 +35,6 @@ def run(tier, replay):
     arms = {t[1] for t in mc["tuples"] if t[0] == "ARM"}
     if arms != ARMS:
         lib.tool_error(f"vacuity guard: arms not exercised by the exhaustive run: {sorted(ARMS - arms)}")
-    hyp = any(t[0] == "HYPOTHESIS" for t in mc["tuples"])
     obs = f"{wd}/obs.ndjson"
     if replay:
         lib.kverif("access", ["c50", "--out", obs, "--replay", replay])
@@ -80,7 +81,8 @@ def run(tier, replay):
         "sync_requests_with_reserved_range_id": sum(1 for r in steps if has(r, lambda e: e["id"].startswith("b") or e["id"].startswith("0000"))),
         "sync_requests_with_foreign_or_native_or_recycled_id": sum(1 for r in steps if has(r, lambda e: e["id"] in ("e3", "e4", "e5", "e6"))),
         "sync_requests_with_delete_or_retain": sum(1 for r in steps if r["a"] == "sync" and r["req"]["retain"]["mode"] != "ignore"),
-        "model_exhibits_reserved_uuid_hypothesis": hyp,
+        "reserved_range_requests_refused": sum(1 for r in steps if r["res"] != "ok" and has(r, lambda e: e["id"].startswith("b"))),
+        "reserved_range_requests_succeeded": sum(1 for r in steps if r["res"] == "ok" and has(r, lambda e: e["id"].startswith("b"))),
         "model_arms_exercised": sorted(ARMS),
         "rule": "every step of a real history is one validated trace line: L1 (KSync!L1Sync / L1UserMod) judges population before/after",
     }
